@@ -57,6 +57,9 @@ func referencedNames(doc *vlib.Doc) map[string]bool {
 			out[b] = true
 		}
 		for _, p := range o.Props {
+			if p.KeyRef {
+				out[p.Key] = true
+			}
 			out[p.V.Ref], out[p.V.Ref2], out[p.V.Enum] = true, true, true
 			if p.V.Obj != nil {
 				inObj(p.V.Obj)
